@@ -56,7 +56,13 @@ def impl(case: Case) -> str:
                 out = s.bracket_indices(arr(bases), factor=float(fac), round_decimals=rd)
                 return ",".join(str(int(k)) for k in out) if len(out) else "-"
             out = s.marginal_rates(arr(bases), factor=float(fac), round_base_decimals=rd)
-            return fmt_vals(exact(v) for v in out)
+            # same arguments to bracket_indices: at or above the first threshold (index >= 0)
+            # the reported rate must be the rate of the reported bracket
+            idx = s.bracket_indices(arr(bases), factor=float(fac), round_decimals=rd)
+            flags = ""
+            if len(idx) != len(out) or any(int(k) >= 0 and exact(s.rates[int(k)]) != exact(v) for k, v in zip(idx, out)):
+                flags = " !IDX"
+            return fmt_vals(exact(v) for v in out) + flags
         except Exception:
             return "ERR"
     if op in ("thr", "ratefb"):
@@ -110,6 +116,23 @@ def _flags(out: str):
     return parts[0], parts[1:]
 
 
+def _rounded(ths, rd):
+    """(ties down, ties up) roundings of the scaled thresholds; identical lists without ties / rounding"""
+    if rd is None:
+        return ths, ths
+    lo, hi = [], []
+    for t in ths:
+        if is_tie(t, rd):
+            q = t * 10 ** rd
+            fl = q.numerator // q.denominator
+            lo.append(F(fl, 10 ** rd))
+            hi.append(F(fl + 1, 10 ** rd))
+        else:
+            lo.append(half_even(t, rd))
+            hi.append(half_even(t, rd))
+    return lo, hi
+
+
 def _containing(ths, b):
     """indices k with t_k <= b <= t_{k+1} (closed: at a threshold both neighbours qualify)"""
     return [k for k in range(len(ths)) if ths[k] <= b and (k + 1 == len(ths) or b <= ths[k + 1])]
@@ -125,6 +148,9 @@ def oracle(case: Case, out: str):
         return ("vector-pointwise", f"{op}: a base evaluated alone differs from its value inside the vector ({case.line[:160]})")
     if "KIND" in flags:
         return ("insertion-order", "rate-like and amount-like add_bracket disagree on " + f[2])
+    if "IDX" in flags:
+        return ("mr-rate-index", "marginal_rates(b, factor, decimals) differs from rates[bracket_indices(b, factor, decimals)] "
+                                 "for a base at or above the first threshold: " + case.line[:200])
     if op == "build":
         want = fmt_scale(spec_build(parse_scale(f[2])))
         if body != want:
@@ -150,23 +176,23 @@ def oracle(case: Case, out: str):
         if not brs or not bases or fac <= 0:
             return None
         ths = [fac * t for t, _ in brs]
-        if rd is not None:
-            if any(is_tie(t, rd) for t in ths):
-                return None
-            ths = [half_even(t, rd) for t in ths]
+        # rounded thresholds; on an exact rounding tie the eps perturbation decides, so both
+        # neighbours are admitted: `lo` rounds every tie down, `hi` up (count(hi) <= k + 1 <= count(lo))
+        lo, hi = _rounded(ths, rd)
         if body == "ERR":
             return ("raises", f"{op} raised on " + case.line[:200])
         got = body.split(",")
         for b, g in zip(bases, got):
-            if b < ths[0] or (b == ths[0] and ths[0] > 0):
+            if b < hi[0] or (b == hi[0] and hi[0] > 0) or lo[0] != hi[0] and b <= hi[0]:
                 continue                      # no bracket contains the base / convention (Appendix A)
-            ks = _containing(ths, b)
+            cand = _containing(lo, b) + _containing(hi, b)
+            ks = list(range(min(cand), max(cand) + 1))
             if op == "mridx":
                 if int(g) not in ks:
-                    return ("mr-index", f"scale {fmt_scale(brs)} factor {fac} base {b}: bracket {g} does not contain the base")
+                    return ("mr-index", f"scale {fmt_scale(brs)} factor {fac} decimals {rd} base {b}: bracket {g} does not contain the base")
             elif op in ("mrrate", "ratefb"):
                 if F(g) not in [brs[k][1] for k in ks]:
-                    return ("mr-rate", f"scale {fmt_scale(brs)} factor {fac} base {b}: rate {g} is not the rate of the bracket containing the base")
+                    return ("mr-rate", f"scale {fmt_scale(brs)} factor {fac} decimals {rd} base {b}: rate {g} is not the rate of the bracket containing the base")
             else:
                 if F(g) not in [brs[k][0] for k in ks]:
                     return ("mr-index", f"scale {fmt_scale(brs)} base {b}: threshold {g} is not the one of the bracket containing the base")
@@ -312,18 +338,64 @@ def cases_for_scale(rng: random.Random, ins, full=True):
             out.append(_mk(opn, fr(e), fr(fac), "-", s, fmt_vals(fin), tags=("factor",)))
         if fout:
             out.append(_mk(opn, fr(e), fr(fac), "-", s, fmt_vals(fout), claimed=False, tags=("factor", "below-first")))
-    # rounding: decimals 0 with any factor; decimals 1, 2 with integer scaled thresholds
+    # rounding, stream A (calc exact, DESIGN section 4): decimals 0 with any dyadic factor (scaled
+    # thresholds off the rounding lattice, bases on the 1/8 lattice); decimals 1, 2 with integer
+    # scaled thresholds and bases in 1/2 Z resp. 1/4 Z
     d = rng.choice([0, 0, 1, 2])
     if d == 0:
-        rf = F(rng.choice([1, 4, 5, 8, 8, 12, 16, 20]), 8)
-        rb = bases_for(rng, brs, rf, step=Q, extra=4)
+        rf = F(rng.choice(OFF_LATTICE_FACTORS + [8, 16]), 8)
+        rb = round_bases(rng, brs, rf, 0, F(1, 8))
     else:
         rf = F(rng.choice([1, 1, 2, 3]))
         rb = bases_for(rng, brs, rf, step=F(1, 2) if d == 1 else Q, extra=4)
-    re_ = eps_eff(rf)
-    out.append(_mk("mrcalc", fr(re_), fr(rf), d, s, fmt_vals(rb), tags=("round", f"d{d}")))
-    out.append(_mk("mridx", fr(re_), fr(rf), d, s, fmt_vals(rb), claimed=False, tags=("round",)))
-    out.append(_mk("mrrate", fr(re_), fr(rf), d, s, fmt_vals(rb), claimed=False, tags=("round",)))
+    out += _round_lines(("mrcalc", "mridx", "mrrate"), rf, d, s, ths, rb)
+    # stream B (index / rate only, exact for every dyadic threshold): decimals 0, 1, 2 with scaled
+    # thresholds having 3 binary digits, bases at t*f, round(t*f) and +-1/8, +-1/4 around both
+    d = rng.choice([0, 1, 2])
+    rf = F(rng.choice(OFF_LATTICE_FACTORS), 8)
+    out += _round_lines(("mridx", "mrrate"), rf, d, s, ths, round_bases(rng, brs, rf, d, F(1, 8)))
+    return out
+
+
+OFF_LATTICE_FACTORS = [1, 3, 4, 5, 7, 9, 11, 12, 13, 15, 17, 20, 21, 27]    # eighths
+
+
+def round_bases(rng, brs, fac, d, step):
+    """bases on the lattice `step` at / next to every scaled threshold t*f and its two rounding
+    candidates, +- one and two steps; below the first, above the last"""
+    bs = set()
+    pts = []
+    for t, _ in brs:
+        x = fac * t
+        q = x * 10 ** d
+        fl = q.numerator // q.denominator
+        pts += [x, F(fl, 10 ** d), F(fl + 1, 10 ** d)]
+    for p in pts:
+        k = (p / step).numerator // (p / step).denominator
+        for j in (-2, -1, 0, 1, 2, 3):
+            bs.add((k + j) * step)
+    xs = [fac * t for t, _ in brs] or [F(0)]
+    bs |= {min(xs) - 100, max(xs) + 1000, F(0)}
+    for _ in range(3):
+        bs.add(F(rng.randint(-8400, 8400)) * step)
+    return sorted(bs)
+
+
+def _round_lines(ops, rf, d, s, ths, bases):
+    """lines with rounding; index / rate lines are binding from the first rounded threshold on"""
+    out = []
+    e = fr(eps_eff(rf))
+    lo, hi = _rounded([rf * t for t in ths], d)
+    inn = [b for b in bases if b > hi[0] or (b == hi[0] and lo[0] == hi[0])]
+    outb = [b for b in bases if b not in inn]
+    for opn in ops:
+        if opn == "mrcalc":
+            out.append(_mk(opn, e, fr(rf), d, s, fmt_vals(bases), tags=("round", f"d{d}")))
+            continue
+        if inn:
+            out.append(_mk(opn, e, fr(rf), d, s, fmt_vals(inn), tags=("round", f"d{d}")))
+        if outb:
+            out.append(_mk(opn, e, fr(rf), d, s, fmt_vals(outb), claimed=False, tags=("round", "below-first")))
     return out
 
 
@@ -444,7 +516,9 @@ PROP = Prop(
           "drawn wide / small / non-negative / multiples of 50 / extremes, 0 forced in 40 %, a threshold repeated with "
           "probability 0.22 per bracket; rates and amounts in 2^-4 Z), built on both sides with add_bracket; bases = every "
           "(scaled) threshold, threshold +- one lattice step, below the first, above the last, 0, negatives, a few random "
-          "lattice points. ops: build, mrcalc / mridx / mrrate (plain, with factor k/8, with round decimals 0/1/2), thr, "
+          "lattice points. ops: build, mrcalc / mridx / mrrate (plain, with factor k/8, with round decimals 0/1/2: factors "
+          "k/8 whose scaled thresholds are off the rounding lattice, bases on the 1/8 lattice at t*f, at both rounding candidates "
+          "of t*f and +-1/8, +-1/4 around them; marginal_rates is also compared with rates[bracket_indices] for the same arguments), thr, "
           "ratefb, macalc, sacalc L/R, lacalc; every insertion order of scales with <= 5 brackets. Each calc is evaluated "
           "on the vector and on every base alone. A case is non-trivial when the scale has at least two distinct thresholds."),
     assumptions=[
